@@ -431,6 +431,12 @@ func (c *wsConn) call(rid, action string, params interface{}, cb func(result jso
 			cb(nil, "", err)
 			return
 		}
+		// The connection may have been disposed while waiting for access.
+		// No request must be sent on behalf of a closed connection.
+		if c.disposing {
+			cb(nil, "", reserr.ErrDisposing)
+			return
+		}
 		c.serv.cache.Call(c, sub.ResourceName(), sub.ResourceQuery(), action, c.token, params, false, func(result json.RawMessage, refRID string, _ *codec.Meta, err error) {
 			c.Enqueue(func() {
 				cb(result, refRID, err)
@@ -757,8 +763,9 @@ func (c *wsConn) ExpandCID(rid string) string {
 
 func (c *wsConn) TokenReset(tids map[string]bool, subject string) {
 	c.Enqueue(func() {
-		// Exit if no token ID is set, or if it isn't affected.
-		if c.tid == "" || !tids[c.tid] {
+		// Exit if no token ID is set, or if it isn't affected. A connection
+		// that has been disposed while this was queued makes no request.
+		if c.disposing || c.tid == "" || !tids[c.tid] {
 			return
 		}
 		c.serv.cache.CustomAuth(c, subject, "", c.token, nil, func(_ json.RawMessage, _ string, _ *codec.Meta, err error) {
